@@ -72,6 +72,8 @@ pub struct Case {
     pub mask: u8,
     pub rate_bits: u64,
     pub mode: Mode,
+    /// number of warm-up generations on the same generator before the observed one
+    pub warm: u32,
 }
 
 pub const MUTS: [MutatorKind; 7] = [
@@ -91,7 +93,7 @@ impl Case {
             Mode::Arb(b) => format!("arb:{}", if b.is_empty() { "-".to_string() } else { hex(b) }),
         };
         format!(
-            "id={} P={} unsafe={} ext={} buf={} min={} max={} mask={} rate={:016x} mode={}",
+            "id={} P={} unsafe={} ext={} buf={} min={} max={} mask={} rate={:016x} warm={} mode={}",
             self.id,
             self.proto,
             self.unsafe_m as u8,
@@ -101,6 +103,7 @@ impl Case {
             self.max,
             self.mask,
             self.rate_bits,
+            self.warm,
             mode
         )
     }
@@ -117,6 +120,7 @@ impl Case {
             mask: 0,
             rate_bits: 0.1f64.to_bits(),
             mode: Mode::Rand(0),
+            warm: 0,
         };
         for tok in line.split_whitespace() {
             let Some((k, v)) = tok.split_once('=') else { continue };
@@ -130,6 +134,7 @@ impl Case {
                 "max" => c.max = v.parse().ok()?,
                 "mask" => c.mask = v.parse().ok()?,
                 "rate" => c.rate_bits = u64::from_str_radix(v, 16).ok()?,
+                "warm" => c.warm = v.parse().ok()?,
                 "mode" => {
                     if let Some(s) = v.strip_prefix("rand:") {
                         c.mode = Mode::Rand(s.parse().ok()?);
@@ -188,8 +193,19 @@ impl Case {
         }
     }
 
+    /// warm-up generations (different fuzzer bytes each), as a reused generator would see them
+    pub fn warm_up(&self, g: &mut Generator) {
+        for i in 0..self.warm {
+            let mut r = Rng(self.id.wrapping_mul(0x9E37).wrapping_add(i as u64));
+            let n = 8 + r.below(300) as usize;
+            let bytes = r.bytes(n);
+            let _ = catch_unwind(AssertUnwindSafe(|| g.generate_from_arbitrary(&bytes)));
+        }
+    }
+
     pub fn run(&self) -> Result<Vec<u8>, String> {
         let mut g = self.generator();
+        self.warm_up(&mut g);
         self.run_on(&mut g)
     }
 }
@@ -273,6 +289,7 @@ pub fn sample_case(rng: &mut Rng, id: u64, profile: &str, unsafe_sel: &str) -> C
         mask,
         rate_bits,
         mode,
+        warm: if rng.below(4) == 0 { 1 + rng.below(2) as u32 } else { 0 },
     }
 }
 
@@ -309,8 +326,28 @@ pub fn memo_full(s: &Snapshot) -> String {
         .join(",")
 }
 
+pub fn keys_digest(s: &Snapshot) -> String {
+    let it = s.memo.iter().flat_map(|(k, _)| (*k as u64).to_le_bytes().into_iter());
+    format!("{:016x}", fnv(it))
+}
+
 fn snap(s: &Snapshot) -> String {
-    format!("{}/{}/{}/{}", stack_digest(s), memo_digest(s), s.out_len, s.proto_emitted as u8)
+    let full = if s.stack.is_empty() {
+        ".".to_string()
+    } else if s.stack.chars().count() <= 48 {
+        s.stack.clone()
+    } else {
+        "-".to_string()
+    };
+    format!(
+        "{}/{}/{}/{}/{}/{}",
+        stack_digest(s),
+        memo_digest(s),
+        s.out_len,
+        s.proto_emitted as u8,
+        full,
+        keys_digest(s)
+    )
 }
 
 // ---------------------------------------------------------------- commands
@@ -340,6 +377,7 @@ fn cmd_oracle(args: &[String]) {
 /// one traced generation, as a `trace` request line
 pub fn trace_line(c: &Case) -> String {
     let mut g = c.generator();
+    c.warm_up(&mut g);
     verif::trace_start();
     let res = c.run_on(&mut g);
     let recs = verif::trace_take();
@@ -367,7 +405,12 @@ pub fn trace_line(c: &Case) -> String {
             }
             Rec::BodyEnd { pre } => bodyend = format!("{}@{}", nsteps, snap(pre)),
             Rec::Final { post } => {
-                fin = format!("{}/{}/{}", snap(post), post.stack, memo_full(post))
+                fin = format!(
+                    "{}/{}/{}",
+                    snap(post),
+                    if post.stack.is_empty() { "." } else { &post.stack },
+                    memo_full(post)
+                )
             }
             Rec::Mutated { .. } => mutated += 1,
             Rec::Rewritten => rewritten += 1,
@@ -391,6 +434,98 @@ pub fn trace_line(c: &Case) -> String {
         steps,
         result
     )
+}
+
+/// (bits, text) of every FLOAT argument the run formatted — the model takes Rust's float
+/// `Display` as a given function and is handed its graph on the values that occurred
+pub fn float_table(recs: &[Rec]) -> String {
+    let mut v: Vec<String> = Vec::new();
+    for r in recs {
+        if let Rec::Op { op: 0x46, arg: Some(a), .. } = r {
+            let text = std::str::from_utf8(a).unwrap_or("").trim_end_matches('\n');
+            if let Ok(x) = text.parse::<f64>() {
+                if x.is_finite() {
+                    v.push(format!("{:016x}:{}", x.to_bits(), hex(text.as_bytes())));
+                }
+            }
+        }
+    }
+    v.sort();
+    v.dedup();
+    if v.is_empty() {
+        "-".to_string()
+    } else {
+        v.join(",")
+    }
+}
+
+pub fn gen_line(c: &Case) -> String {
+    let mut g = c.generator();
+    verif::trace_start();
+    let res = c.run_on(&mut g);
+    let recs = verif::trace_take();
+    let result = match res {
+        Ok(out) => format!("ok:{}", hex(&out)),
+        Err(e) => e,
+    };
+    format!("gen {} floats={} result={}", c.line(), float_table(&recs), result)
+}
+
+/// S3: generate_from_arbitrary on structured and exhaustive inputs, for the exact model
+fn cmd_gen(args: &[String]) {
+    let n: u64 = arg_val(args, "--cases", "100").parse().unwrap();
+    let seed: u64 = arg_val(args, "--seed", "1").parse().unwrap();
+    let profile = arg_val(args, "--profile", "default");
+    let unsafe_sel = arg_val(args, "--unsafe", "mix");
+    let exhaustive: usize = arg_val(args, "--exhaustive", "0").parse().unwrap();
+    let mut id = 0u64;
+    if exhaustive > 0 {
+        // every byte string of length <= `exhaustive` (1 or 2), every protocol, default settings
+        let mut inputs: Vec<Vec<u8>> = vec![vec![]];
+        for x in 0..=255u8 {
+            inputs.push(vec![x]);
+        }
+        if exhaustive >= 2 {
+            for x in 0..=255u8 {
+                for y in 0..=255u8 {
+                    inputs.push(vec![x, y]);
+                }
+            }
+        }
+        for inp in inputs {
+            for p in 0..6 {
+                let c = Case {
+                    id,
+                    proto: p,
+                    unsafe_m: false,
+                    ext: id % 2 == 0,
+                    buf: id % 3 == 0,
+                    min: 3,
+                    max: 9,
+                    mask: if id % 5 == 0 { 0x1f } else { 0 },
+                    rate_bits: 0.5f64.to_bits(),
+                    mode: Mode::Arb(inp.clone()),
+                    warm: 0,
+                };
+                println!("{}", gen_line(&c));
+                id += 1;
+            }
+        }
+        return;
+    }
+    let mut rng = Rng(seed ^ 0x67656e);
+    while id < n {
+        let mut c = sample_case(&mut rng, id, profile, unsafe_sel);
+        c.warm = 0;
+        if let Mode::Rand(s) = c.mode {
+            // S3 needs fuzzer-bytes mode (the model ports Unstructured, not ChaCha)
+            let mut r = Rng(s);
+            let len = r.below(2500) as usize;
+            c.mode = Mode::Arb(r.bytes(len));
+        }
+        println!("{}", gen_line(&c));
+        id += 1;
+    }
 }
 
 fn cmd_trace(args: &[String]) {
@@ -438,6 +573,7 @@ fn main() {
     match args.first().map(|s| s.as_str()) {
         Some("oracle") => cmd_oracle(&args[1..]),
         Some("trace") => cmd_trace(&args[1..]),
+        Some("gen") => cmd_gen(&args[1..]),
         Some("case") => cmd_case(&args[1..]),
         Some("tables") => cmd_tables(),
         Some("probe") => probe::cmd_probe(&args[1..]),
